@@ -1145,3 +1145,80 @@ package gohlslib
 //@   nocallpre
 //@   modifies p.trackProcessors, clientTrackProcessorFMP4.decodePayload, clientTrackProcessorFMP4.queue
 //@ end
+
+// ---------------------------------------------------------------------------------------
+// C16: stream / rendition / default assignment at Start, taken from the property statement:
+// the leading track is the video track, else the first track; every non-leading audio track (and every
+// audio track of an audio-only multi-track muxer) is a rendition; exactly one rendition is DEFAULT: the
+// one the user marked (an audio track with IsDefault), else the first rendition.
+
+//@ pred trackAt(m *Muxer, k int) *Track := m.Tracks[k]
+//@ pred inTracks(m *Muxer, k int) := 0 <= k && k < len(m.Tracks)
+//@ pred hasVid(m *Muxer) := exists(k, inTracks(m, k) && isVideo(m.Tracks[k].Codec))
+//@ pred leadSpec(m *Muxer, k int) := isVideo(m.Tracks[k].Codec) || (!hasVid(m) && k == 0)
+//@ pred rendSpec(m *Muxer, k int) := !isVideo(m.Tracks[k].Codec) && (!leadSpec(m, k) || len(m.Tracks) > 1)
+//@ pred audioMarked(m *Muxer, k int) := !isVideo(m.Tracks[k].Codec) && m.Tracks[k].IsDefault
+//@ pred anyMarked(m *Muxer) := exists(k, inTracks(m, k) && audioMarked(m, k))
+//@ pred firstRend(m *Muxer, k int) := forall(j, (0 <= j && j < k) ==> !rendSpec(m, j))
+//@ pred defSpec(m *Muxer, k int) := rendSpec(m, k) && ite(anyMarked(m), m.Tracks[k].IsDefault, firstRend(m, k))
+
+//@ func muxerStream.initialize
+//@   props C16
+//@   nosafety
+//@   noframe
+//@   nocallpre
+//@   modifies muxerTrack.stream, s.generateMediaPlaylist, s.mpegtsSwitchableWriter, s.mpegtsWriter, muxerServer.pathHandlers
+//@ end
+
+//@ func muxerTrack.initialize
+//@   props C16
+//@   requires t.Track != nil
+//@   modifies t.mpegtsTrack
+//@ end
+
+//@ func muxerSegmenter.initialize
+//@   props C16
+//@   modifies s.fmp4SampleDurations
+//@ end
+
+//@ func generatePrefix
+//@   props C16
+//@   nosafety
+//@ end
+
+//@ func Muxer.Start
+//@   props C16
+//@   nosafety
+//@   noframe
+//@   nocallpre
+//@   requires len(m.streams) == 0 && len(m.mtracks) == 0
+//@   requires forall(k, inTracks(m, k) ==> (m.Tracks[k] != nil && m.Tracks[k].Codec != nil))
+//@   loop 1 invariant ri < len(m.Tracks)
+//@   loop 1 invariant hasVideo == exists(k, 0 <= k && k <= ri && isVideo(m.Tracks[k].Codec))
+//@   loop 2 invariant ri < len(m.Tracks)
+//@   loop 2 invariant hasVideo == exists(k, 0 <= k && k <= ri && isVideo(m.Tracks[k].Codec))
+//@   loop 3 invariant ri < len(m.Tracks)
+//@   loop 3 invariant hasDefaultAudio == exists(k, 0 <= k && k <= ri && audioMarked(m, k))
+//@   loop 3 invariant forall(j, (0 <= j && j <= ri) ==> forall(k, (j < k && k <= ri) ==> !(audioMarked(m, j) && audioMarked(m, k))))
+//@   loop 4 invariant ri < len(m.Tracks) && len(m.mtracks) == ri + 1 && len(m.streams) == 0
+//@   loop 4 invariant forall(k, (0 <= k && k <= ri) ==> (m.mtracks[k] != nil && m.mtracks[k].Track == m.Tracks[k] && m.mtracks[k].isLeading == leadSpec(m, k)))
+//@   loop 5 invariant len(m.mtracks) == len(m.Tracks) && ri < len(m.mtracks) && len(m.streams) == ri + 1
+//@   loop 5 invariant forall(k, inTracks(m, k) ==> (m.mtracks[k] != nil && m.mtracks[k].Track == m.Tracks[k] && m.mtracks[k].isLeading == leadSpec(m, k)))
+//@   loop 5 invariant defaultAudioChosen == (!hasDefaultAudio && !firstRend(m, ri + 1))
+//@   loop 5 invariant forall(k, (0 <= k && k <= ri) ==> (m.streams[k] != nil
+//@        && m.streams[k].isLeading == leadSpec(m, k) && m.streams[k].isRendition == rendSpec(m, k) && m.streams[k].isDefault == defSpec(m, k)))
+//@   ensures (result == nil && m.Variant != MuxerVariantMPEGTS) ==> len(m.streams) == len(m.Tracks)
+//@   ensures (result == nil && m.Variant != MuxerVariantMPEGTS) ==> forall(k, inTracks(m, k) ==> (m.streams[k] != nil
+//@        && m.streams[k].isLeading == leadSpec(m, k) && m.streams[k].isRendition == rendSpec(m, k) && m.streams[k].isDefault == defSpec(m, k)))
+//@   ensures (result == nil && m.Variant != MuxerVariantMPEGTS) ==> forall(j, inTracks(m, j) ==> forall(k, (j < k && inTracks(m, k)) ==> !(audioMarked(m, j) && audioMarked(m, k))))
+//@   ensures result == nil ==> (m.leadingStream != nil && m.leadingStream.isLeading)
+//@ end
+
+//@ func Muxer.Start$2
+//@   props C16
+//@   nosafety
+//@   requires forall(k, (0 <= k && k < len(m.streams)) ==> m.streams[k] != nil)
+//@   loop 1 invariant ri < len(m.streams) && forall(k, (0 <= k && k <= ri) ==> !m.streams[k].isLeading)
+//@   ensures result != nil ==> result.isLeading
+//@   ensures result == nil ==> forall(k, (0 <= k && k < len(m.streams)) ==> !m.streams[k].isLeading)
+//@ end
